@@ -20,9 +20,10 @@ package bfe_http2
 // Part A: BFS to closure from the empty connection; every new state's shortest history is
 //         re-executed on fresh objects and must give the same vector (the rebuilt state is the
 //         real state).
-// Part B: one size larger, sharded: every acyclic vector of the domain is reached by a real
-//         history built for it (and checked to arrive exactly there), then every operation is
-//         applied from it. (Part A shows reachable set == domain for the smaller sizes.)
+// Part B: larger sizes, sharded: every acyclic vector of the domain is reached by a real history
+//         built for it (and checked to arrive exactly there), then every operation is applied
+//         from it; successors must again be acyclic, i.e. in the domain (closure). Part A shows
+//         reachable set == domain for the sizes it covers.
 // Part C: the same histories through the real frame path of a real serverConn: bytes ->
 //         Framer.ReadFrame -> sc.processFrame (processHeaders / processPriority /
 //         processResetStream -> closeStream); must agree with Part A's vectors.
@@ -178,12 +179,20 @@ func (w *c36world) load(code uint64) {
 	}
 }
 
-func (w *c36world) encode() (uint64, bool) {
+// encode reads the vector back from the real objects. full: check every stream's membership in
+// the real map; otherwise (PRIORITY ops, which must not touch the map) only its size.
+func (w *c36world) encode(full bool) (uint64, bool) {
 	var code uint64
+	nOpen := 0
 	for i := 0; i < w.n; i++ {
 		f := uint64(w.status[i])
-		if _, in := w.streams[c36id(i)]; in != (w.status[i] == c36open) {
-			return 0, false
+		if w.status[i] == c36open {
+			nOpen++
+		}
+		if full {
+			if st, in := w.streams[c36id(i)]; in != (w.status[i] == c36open) || (in && st != w.obj[i]) {
+				return 0, false
+			}
 		}
 		if p := w.obj[i].parent; p != nil {
 			j := int(p.id-1) / 2
@@ -193,6 +202,9 @@ func (w *c36world) encode() (uint64, bool) {
 			f |= uint64(j+1) << 2
 		}
 		code |= f << (5 * uint(i))
+	}
+	if len(w.streams) != nOpen {
+		return 0, false
 	}
 	return code, true
 }
@@ -309,16 +321,47 @@ func (w *c36world) apply(o c36op) {
 }
 
 // ---- liveness watchdog ------------------------------------------------------------------------
+// Context of the operation in flight, kept in plain atomics so that the hot loops do not
+// allocate: either (n, state vector, op index into c36ops(n)) or (history, position).
+
+type c36histCtx struct {
+	mode string
+	n    int
+	hist []c36op
+}
 
 var (
-	c36wdSeq  uint64       // odd while a bfe operation is in flight
-	c36wdInfo atomic.Value // func() (sig, caseID string)
+	c36wdSeq  uint64 // odd while a bfe operation is in flight
+	c36wdMode int32  // 0 = state+op, 1 = history
+	c36wdN    int32
+	c36wdCode uint64
+	c36wdOp   int32
+	c36wdCls  int32
+	c36wdHist atomic.Value // *c36histCtx
 )
 
-func c36enter(info func() (string, string)) {
-	if info != nil {
-		c36wdInfo.Store(info)
-	}
+func c36ctxState(n int, code uint64) {
+	atomic.StoreInt32(&c36wdMode, 0)
+	atomic.StoreInt32(&c36wdN, int32(n))
+	atomic.StoreUint64(&c36wdCode, code)
+}
+
+func c36ctxHist(mode string, n int, hist []c36op) {
+	c36wdHist.Store(&c36histCtx{mode, n, hist})
+	atomic.StoreInt32(&c36wdMode, 1)
+}
+
+var c36wdSpace atomic.Value // *c36space of the BFS in progress
+
+func c36ctxBFS(i int32) {
+	atomic.StoreInt32(&c36wdMode, 2)
+	atomic.StoreUint64(&c36wdCode, uint64(i))
+}
+
+func c36ctxOp(i int) { atomic.StoreInt32(&c36wdOp, int32(i)) }
+
+func c36enter(cls int) {
+	atomic.StoreInt32(&c36wdCls, int32(cls))
 	atomic.AddUint64(&c36wdSeq, 1)
 }
 func c36leave() { atomic.AddUint64(&c36wdSeq, 1) }
@@ -336,10 +379,23 @@ func c36watchdog(r *vk.Run, t *testing.T) {
 		}
 		last = s
 		if same >= 10 {
-			sig, id := "nonterminating:unknown", "?"
-			if f, ok := c36wdInfo.Load().(func() (string, string)); ok {
-				sig, id = f()
+			var o c36op
+			var id string
+			opi := int(atomic.LoadInt32(&c36wdOp))
+			if m := atomic.LoadInt32(&c36wdMode); m == 2 {
+				sp := c36wdSpace.Load().(*c36space) // the exploring goroutine is stuck inside bfe: sp is quiescent
+				o = sp.ops[opi]
+				id = "direct|" + strconv.Itoa(sp.n) + "|" + c36histStr(sp.n, append(sp.path(int32(atomic.LoadUint64(&c36wdCode))), o))
+			} else if m == 0 {
+				n, code := int(atomic.LoadInt32(&c36wdN)), atomic.LoadUint64(&c36wdCode)
+				o = c36ops(n)[opi]
+				id = "direct|" + strconv.Itoa(n) + "|" + c36histStr(n, append(c36witness(nil, n, code), o))
+			} else {
+				h := c36wdHist.Load().(*c36histCtx)
+				o = h.hist[opi]
+				id = h.mode + "|" + strconv.Itoa(h.n) + "|" + c36histStr(h.n, h.hist[:opi+1])
 			}
+			sig := "nonterminating:" + c36className(o, int(atomic.LoadInt32(&c36wdCls)))
 			r.Violation(sig, id, "the operation did not return within 20 s (every other one takes < 1 ms)")
 			r.Finish()
 			os.Exit(0)
@@ -348,9 +404,10 @@ func c36watchdog(r *vk.Run, t *testing.T) {
 }
 
 // step = classify + real op + invariant; returns the class and "" or a violation signature.
-func (w *c36world) step(o c36op, info func() (string, string)) (int, string) {
+// The caller has set the watchdog context (c36ctxState/c36ctxHist + c36ctxOp).
+func (w *c36world) step(o c36op) (int, string) {
 	cls := w.classify(o)
-	c36enter(info)
+	c36enter(cls)
 	w.apply(o)
 	c36leave()
 	if w.cyclic() >= 0 {
@@ -376,21 +433,21 @@ func (w *c36world) describe() string {
 // Returns the final vector (valid only if sig=="").
 func c36runHistory(n int, hist []c36op, mode string) (code uint64, sig, detail string, err error) {
 	w := c36newWorld(n)
+	c36ctxHist(mode, n, hist)
 	for k, o := range hist {
 		if !w.enabled(o) {
 			return 0, "", "", fmt.Errorf("op %d (%s) not enabled in %s", k, o.str(n), w.describe())
 		}
-		kk := k
-		before := w.describe()
-		cls, sg := w.step(o, func() (string, string) {
-			return "nonterminating:" + c36className(o, w.classify(o)), mode + "|" + strconv.Itoa(n) + "|" + c36histStr(n, hist[:kk+1])
-		})
-		_ = cls
-		if sg != "" {
-			return 0, sg, fmt.Sprintf("after op %d (%s) on [%s] stream %d is its own ancestor: [%s]", k, o.str(n), before, c36id(w.cyclic()), w.describe()), nil
+		c36ctxOp(k)
+		if _, sg := w.step(o); sg != "" {
+			pre := c36newWorld(n) // the prefix was just seen to be acyclic: safe to run again
+			for _, po := range hist[:k] {
+				pre.apply(po)
+			}
+			return 0, sg, fmt.Sprintf("after op %d (%s) on [%s] stream %d is its own ancestor: [%s]", k, o.str(n), pre.describe(), c36id(w.cyclic()), w.describe()), nil
 		}
 	}
-	c, ok := w.encode()
+	c, ok := w.encode(true)
 	if !ok {
 		return 0, "", "", fmt.Errorf("state not encodable: %s", w.describe())
 	}
@@ -485,40 +542,29 @@ func c36bfs(r *vk.Run, t *testing.T, n int, count, report bool) *c36space {
 	w := c36newWorld(n)
 	var st c36stats
 	cyclicStates := int64(0)
+	c36wdSpace.Store(sp)
+	complete := true
 	for i := int32(0); int(i) < len(sp.codes); i++ {
 		code := sp.codes[i]
 		w.load(code)
-		var cur int32
-		info := func() (string, string) {
-			o := sp.ops[atomic.LoadInt32(&cur)]
-			ww := c36newWorld(n)
-			ww.load(code)
-			return "nonterminating:" + c36className(o, ww.classify(o)), "direct|" + strconv.Itoa(n) + "|" + c36histStr(n, append(sp.path(i), o))
-		}
-		first := true
+		c36ctxBFS(i)
 		for oi, o := range sp.ops {
 			if !w.enabled(o) {
 				continue
 			}
-			atomic.StoreInt32(&cur, int32(oi))
-			var cls int
-			var sig string
-			if first {
-				cls, sig = w.step(o, info)
-				first = false
-			} else {
-				cls, sig = w.step(o, nil)
-			}
+			c36ctxOp(oi)
+			cls, sig := w.step(o)
 			if sig != "" {
 				cyclicStates++
 				st.note(o, cls, true)
 				if report {
 					c36report(r, t, n, append(sp.path(i), o), sig)
+					c36ctxBFS(i)
 				}
 				w.load(code)
 				continue // a cyclic state is never expanded
 			}
-			nc, ok := w.encode()
+			nc, ok := w.encode(o.kind != 'P')
 			if !ok {
 				r.Cap("harness-inconsistency")
 				t.Errorf("C36 harness: state not encodable after %s: %s", c36histStr(n, append(sp.path(i), o)), w.describe())
@@ -540,7 +586,8 @@ func c36bfs(r *vk.Run, t *testing.T, n int, count, report bool) *c36space {
 			w.load(code)
 		}
 		if i&1023 == 0 && r.Expired("bfs n="+strconv.Itoa(n)) {
-			return sp
+			complete = false
+			break
 		}
 	}
 	if !count {
@@ -550,6 +597,9 @@ func c36bfs(r *vk.Run, t *testing.T, n int, count, report bool) *c36space {
 	// exactly that vector: the rebuilt states are real states.
 	maxDepth := 0
 	for i := range sp.codes {
+		if !complete {
+			break
+		}
 		h := sp.path(int32(i))
 		if len(h) > maxDepth {
 			maxDepth = len(h)
@@ -565,6 +615,10 @@ func c36bfs(r *vk.Run, t *testing.T, n int, count, report bool) *c36space {
 	st.flush(r, "bfs")
 	r.States(int64(len(sp.codes)))
 	dom := c36domainSize(n)
+	if !complete {
+		r.Set(fmt.Sprintf("bfs_n%d", n), fmt.Sprintf("NOT closed (deadline): %d states seen", len(sp.codes)))
+		return sp
+	}
 	r.Set(fmt.Sprintf("bfs_n%d", n), fmt.Sprintf("closed: %d states (acyclic vectors in the domain: %d), depth %d, cyclic successors %d", len(sp.codes), dom, maxDepth, cyclicStates))
 	if cyclicStates == 0 && int64(len(sp.codes)) != dom {
 		// not a property matter: Part B relies on reachable == domain; say so if it is not.
@@ -650,13 +704,13 @@ func c36domainSize(n int) int64 {
 
 // witness history for a vector: open the non-idle streams in id order, set parents top-down with
 // non-exclusive PRIORITY frames, then end the closed ones.
-func c36witness(n int, code uint64) []c36op {
+func c36witness(h []c36op, n int, code uint64) []c36op {
 	var status, parent, depth [c36maxN]int
 	for i := 0; i < n; i++ {
 		f := (code >> (5 * uint(i))) & 31
 		status[i], parent[i] = int(f&3), int(f>>2)
 	}
-	var h []c36op
+	h = h[:0]
 	for i := 0; i < n; i++ {
 		if status[i] != c36idle {
 			h = append(h, c36op{kind: 'H', s: i})
@@ -686,6 +740,7 @@ func c36sweep(r *vk.Run, t *testing.T, n int) {
 	var st c36stats
 	idx, mine, bad := 0, int64(0), 0
 	stop := false
+	var wit []c36op
 	c36enumDomain(n, func(code uint64) {
 		idx++
 		if stop || !r.Mine(idx) {
@@ -698,51 +753,39 @@ func c36sweep(r *vk.Run, t *testing.T, n int) {
 		mine++
 		// reach the vector by a real history from the empty connection
 		w.load(0)
-		wit := c36witness(n, code)
-		for _, o := range wit {
+		wit = c36witness(wit, n, code)
+		c36ctxHist("direct", n, wit)
+		for k, o := range wit {
 			if !w.enabled(o) {
 				bad++
 				break
 			}
-			if _, sig := w.step(o, nil); sig != "" {
-				c36report(r, t, n, wit, sig)
+			c36ctxOp(k)
+			if _, sig := w.step(o); sig != "" {
+				c36report(r, t, n, wit[:k+1], sig)
 				return
 			}
 		}
-		if c, ok := w.encode(); !ok || c != code {
+		if c, ok := w.encode(true); !ok || c != code {
 			if bad++; bad < 4 {
 				r.Cap("harness-inconsistency")
 				t.Errorf("C36 harness: witness history %s arrives at %x, wanted %x", c36histStr(n, wit), c, code)
 			}
 			return
 		}
-		r.Traces(1)
-		var cur int32
-		info := func() (string, string) {
-			o := ops[atomic.LoadInt32(&cur)]
-			ww := c36newWorld(n)
-			ww.load(code)
-			return "nonterminating:" + c36className(o, ww.classify(o)), "direct|" + strconv.Itoa(n) + "|" + c36histStr(n, append(c36witness(n, code), o))
-		}
-		first := true
+		c36ctxState(n, code)
 		for oi, o := range ops {
 			if !w.enabled(o) {
 				continue
 			}
-			atomic.StoreInt32(&cur, int32(oi))
-			var cls int
-			var sig string
-			if first {
-				cls, sig = w.step(o, info)
-				first = false
-			} else {
-				cls, sig = w.step(o, nil)
-			}
+			c36ctxOp(oi)
+			cls, sig := w.step(o)
 			if sig != "" {
 				st.note(o, cls, true)
 				c36report(r, t, n, append(wit, o), sig)
+				c36ctxState(n, code)
 			} else {
-				nc, ok := w.encode()
+				nc, ok := w.encode(o.kind != 'P')
 				if !ok {
 					r.Cap("harness-inconsistency")
 					t.Errorf("C36 harness: state not encodable after %s", c36histStr(n, append(wit, o)))
@@ -754,6 +797,7 @@ func c36sweep(r *vk.Run, t *testing.T, n int) {
 	})
 	st.flush(r, "sweep")
 	r.States(mine)
+	r.Traces(mine - int64(bad))
 	r.Add("sum_sweep_states", mine)
 	r.Set(fmt.Sprintf("sweep_n%d_domain", n), c36domainSize(n))
 }
@@ -928,20 +972,18 @@ func c36runFrames(n int, hist []c36op) (code uint64, sig, detail string, ferr er
 	fw := c36newFrameWorld(n)
 	defer fw.done()
 	shadow := c36newWorld(n) // only for the class name in a signature (pre-state classification)
+	c36ctxHist("frames", n, hist)
 	for k, o := range hist {
 		cls := shadow.classify(o)
-		kk := k
-		c36enter(func() (string, string) {
-			return "nonterminating:" + c36className(o, cls), "frames|" + strconv.Itoa(n) + "|" + c36histStr(n, hist[:kk+1])
-		})
-		before := fw.describe()
+		c36ctxOp(k)
+		c36enter(cls)
 		e := fw.send(o)
 		c36leave()
 		if e != nil {
 			return 0, "", "", e, nil
 		}
 		if i := fw.cyclic(); i >= 0 {
-			return 0, "cycle:" + c36className(o, cls), fmt.Sprintf("frame path: after frame %d (%s) on [%s] stream %d is its own ancestor: [%s]", k, o.str(n), before, c36id(i), fw.describe()), nil, nil
+			return 0, "cycle:" + c36className(o, cls), fmt.Sprintf("frame path: after frame %d (%s) on [%s] stream %d is its own ancestor: [%s]", k, o.str(n), shadow.describe(), c36id(i), fw.describe()), nil, nil
 		}
 		// keep the shadow in the same state (vector copy, no bfe code involved)
 		c, ok := fw.encode()
@@ -987,8 +1029,8 @@ func c36framesPart(r *vk.Run, t *testing.T, n int) {
 				r.Violation(sig, id, detail)
 			default:
 				// cross-check of the harness's direct model of HEADERS/close against the server
-				_, dsig := w.step(o, nil)
-				dc, _ := w.encode()
+				_, dsig := w.step(o)
+				dc, _ := w.encode(true)
 				w.load(sp.codes[i])
 				if dsig != "" || dc != code {
 					r.Cap("harness-inconsistency")
@@ -1036,8 +1078,8 @@ func TestVerifC36(t *testing.T) {
 		return
 	}
 
-	nA, nB, nC := r.Pick(5, 6), r.Pick(6, 7), r.Pick(3, 4)
-	_, shards := r.Shard()
+	nA, nC := 5, r.Pick(3, 4)
+	shardI, shards := r.Shard()
 	// Part A: BFS to closure for every n up to nA; the largest runs on the last shard. Every shard
 	// walks n<=3 first (172 states, counted only by the owner) so that the recorded case of a
 	// signature is a shortest history whenever one exists on <=3 streams.
@@ -1046,11 +1088,23 @@ func TestVerifC36(t *testing.T) {
 			c36bfs(r, t, n, mine, true)
 		}
 	}
-	// Part B: sharded sweep of the whole acyclic domain one size up.
-	c36sweep(r, t, nB)
 	// Part C: frame path.
 	c36framesPart(r, t, nC)
-	r.Set("bounds", fmt.Sprintf("BFS to closure n<=%d streams; domain sweep n=%d; frame path n=%d; ops per state: PRIORITY x n ids x (n+2) deps x excl, HEADERS (new id) x {no prio, (n+2) deps x excl}, close", nA, nB, nC))
+	// Part B: sharded sweep of the whole acyclic domain of the next size(s). Together with the
+	// acyclic-successor check this is also a closure argument: the domain contains the empty
+	// connection, every vector in it is reached by a real history, every successor is in it.
+	c36sweep(r, t, 6)
+	bounds := "BFS to closure n<=5 streams; witnessed domain sweep n=6"
+	if r.Thorough() {
+		// the two largest pieces come last: on a heavily loaded machine they are the ones that may
+		// run into the internal deadline (reported as caps, exhaustive=false)
+		c36sweep(r, t, 7)
+		if shardI == shards-1 {
+			c36bfs(r, t, 6, true, true)
+		}
+		bounds = "BFS to closure n<=6 streams; witnessed domain sweep n=6 and n=7"
+	}
+	r.Set("bounds", fmt.Sprintf("%s; frame path n=%d; ops per state: PRIORITY x n ids x (n+2) deps x excl, HEADERS (new id) x {no prio, (n+2) deps x excl}, close", bounds, nC))
 	if i, _ := r.Shard(); i == 0 {
 		r.Sample(map[string]interface{}{"legend": "H<id>[>dep[x]] HEADERS opening stream id (with priority param), P<id>>dep[x] PRIORITY, R<id> stream ended; x = exclusive; state = id:status->parent"})
 	}
